@@ -122,7 +122,7 @@ class Observer:
             pk = "good"
             honest = any(m["side"] == cl.side for cl in self.W.clients)
             if phase == "pake":
-                pk = self.pake_kind(body)
+                pk = self.pake_kind(body) if side == "theirs" else "good"     # our own echo is never handed to Key
                 good = 1 if pk == "good" else 0
             else:
                 key = self.c.boss._R._key
@@ -205,6 +205,8 @@ class Observer:
         k = op[0]
         if k == "server_welcome_error":
             return W.server_welcome_error(op[1])
+        if k == "pump":
+            return self.pump()
         if k != "settle" and len(op) > 1 and op[1] != ci:
             return W.do(op)
         n_int = len(c.internal)
@@ -268,7 +270,29 @@ class Observer:
                         "ws_fail": "wsfail"}[k]
                 self.record(line, self._outcome(r, n_int))
             return r
+        if k == "inject" and op[4] == "REFLECT":
+            mine = [m for m in W.sent[ci] if m.get("type") == "add" and m.get("phase") == "pake"]
+            return W.do(["inject", op[1], op[2], op[3], mine[0]["body"] if mine else "7b7d"])
         return W.do(op)
+
+    def pump(self, rounds=60):
+        """deliver everything that is queued, for every client, as ordinary (recorded) ops, until quiescent"""
+        W = self.W
+        for _ in range(rounds):
+            moved = False
+            for cl in W.clients:
+                i = cl.index
+                if cl.conn is not None and cl.conn.c2s:
+                    self.do(["c2s", i])
+                    moved = True
+                if cl.conn is not None and cl.conn.s2c and not (cl.svc.stopping is not None and not cl.svc.stopping.called):
+                    self.do(["s2c", i])
+                    moved = True
+                if cl.eq._calls:
+                    self.do(["turn", i])
+                    moved = True
+            if not moved:
+                return
 
     def _outcome(self, r, n_int):
         c = self.c
@@ -440,6 +464,9 @@ def guided(seed, n_ops, profile, welcome_error=None, finish_run=False):
                 # (a stranger's well-formed PAKE element, or bytes that open under no key), at any time
                 if (profile in ("third", "third-alone") or rng.random() < 0.02) and c0.conn.sp._listening:
                     ph3 = rng.choice(["pake", "pake", "pake", "version", "version", "0", "1", "dilate-0", "foo"])
+                    seen_pake = "pake" in c0.boss._M._processed or any(p_[1] == "pake" for p_ in c0.boss._M._processed if isinstance(p_, tuple))
+                    if seen_pake and rng.random() < 0.5:
+                        ph3 = "pake"        # a second PAKE, after the first one was accepted
                     if ph3 == "pake":
                         from spake2 import SPAKE2_Symmetric
                         kind = rng.choice(["stranger", "stranger", "empty", "nonjson", "list", "int", "nonhex", "short",
@@ -460,7 +487,7 @@ def guided(seed, n_ops, profile, welcome_error=None, finish_run=False):
                                      "random32": dict_to_bytes({"pake_v1": "53" + bytes(rng.randrange(256) for _ in range(32)).hex()})}[kind]
                     else:
                         body3 = bytes(rng.randrange(256) for _ in range(rng.choice([0, 24, 40, 60])))
-                    choices += [["inject", 0, "7h1rd51de", ph3, body3.hex()]] * (3 if profile in ("third", "third-alone") else 1)
+                    choices += [["inject", 0, "7h1rd51de", ph3, body3.hex()]] * ((6 if seen_pake else 3) if profile in ("third", "third-alone") else 1)
             if c0.svc.stopping is not None and not c0.svc.stopping.called:
                 choices += [["svc_stopped", 0]] * 4
             if c0.eq._calls:
@@ -570,6 +597,39 @@ def replay(ops, welcome_error=None, npeers=None, seed=0):
         for op in ops:
             ob.do(op)
         return ob, summarize(W, ob)
+
+
+def hostile_corpus():
+    """scripted runs with a third mailbox participant: every class of unusable PAKE body / undecryptable bytes, alone,
+    queued behind an early `version`, after the honest key exchange, and stashed before the local code is known"""
+    from spake2 import SPAKE2_Symmetric
+    import json as _j
+    stranger = dict_to_bytes({"pake_v1": SPAKE2_Symmetric(b"9-some-stranger", idSymmetric=b"x").start().hex()}).hex()
+    kinds = {"stranger": stranger, "empty": b"{}".hex(), "nonjson": "fffe", "list": b"[]".hex(), "int": b'{"pake_v1": 5}'.hex(),
+             "nonhex": b'{"pake_v1": "zz"}'.hex(), "short": b'{"pake_v1": "00"}'.hex(),
+             "zero33": dict_to_bytes({"pake_v1": "00" * 33}).hex(), "notingroup": dict_to_bytes({"pake_v1": "53" + "ff" * 32}).hex(),
+             "offcurve": dict_to_bytes({"pake_v1": "53" + "02" + "00" * 31}).hex(), "deepjson": (b"[" * 5000).hex(),
+             "reflect": "REFLECT"}
+    T = "7h1rd51de"
+    code = "4-purple-sausages"
+    junk = "00" * 60
+    out = []
+    for name, body in kinds.items():
+        end = [["api", 0, "close"], ["pump"], ["svc_stopped", 0], ["pump"]]
+        alone = [["api", 0, "set_code", code], ["open", 0], ["pump"]]
+        out.append(dict(ops=alone + [["inject", 0, T, "pake", body], ["pump"]] + end, npeers=0, profile="hostile:alone:" + name))
+        out.append(dict(ops=alone + [["inject", 0, T, "version", junk], ["inject", 0, T, "0", junk], ["inject", 0, T, "pake", body],
+                                     ["pump"]] + end, npeers=0, profile="hostile:queued:" + name))
+        both = [["api", 0, "set_code", code], ["api", 1, "set_code", code], ["open", 0], ["open", 1], ["pump"]]
+        out.append(dict(ops=both + [["inject", 0, T, "pake", body], ["pump"], ["inject", 0, T, "1", junk], ["pump"]] + end, npeers=1,
+                        profile="hostile:second:" + name))
+        stash = [["api", 0, "input_code"], ["api", 0, "choose_nameplate", "4"], ["open", 0], ["pump"],
+                 ["inject", 0, T, "pake", body], ["pump"]]
+        out.append(dict(ops=stash + [["api", 0, "choose_words", "purple-sausages"], ["pump"]] + end, npeers=0,
+                        profile="hostile:stashed:" + name))
+        out.append(dict(ops=stash + [["inject", 0, T, "version", junk], ["pump"], ["api", 0, "choose_words", "purple-sausages"], ["pump"]] + end,
+                        npeers=0, profile="hostile:stashed+version:" + name))
+    return out
 
 
 # ---------------------------------------------------------------------------
